@@ -88,6 +88,11 @@ impl Check for C09 {
             "shutdown": *g.pick(&["ok", "ok", "err", "hang"]),
             "hb": {"interval_s": *g.pick(&[1u64, 2, 5]), "timeout_s": *g.pick(&[1u64, 2, 3, 10])},
             "drain_delay_us": if small_cap { 0 } else { *g.pick(&[0u64, 0, 100, 5_000]) },
+            // the peer stops reading this many bytes into the SUT's output (a dead peer whose connection
+            // stays open): a writer parks inside the transport and keeps the writer lock. Only the causes that
+            // do not need the receive loop are combined with it (behind such a peer the receive loop itself can
+            // be parked in an inline answer and then legitimately never sees an Alert or an EOF)
+            "stall_after": if matches!(cause_kind, "owner_close" | "hb_giveup") && g.chance(45) { json!(g.range(0, 2_000)) } else { Value::Null },
         })
     }
     fn horizon(&self, _p: &Value) -> Duration {
@@ -115,12 +120,24 @@ impl Check for C09 {
             };
             // peer drains whatever the SUT writes (possibly slowly), never answers
             let drain_delay = plan["drain_delay_us"].as_u64().unwrap_or(0);
+            let stall_after = plan["stall_after"].as_u64();
+            let stall_ctl = c_out.clone();
             anytls_simnet::spawn(async move {
                 let mut b = vec![0u8; 2048];
+                let mut seen = 0u64;
                 loop {
+                    if let Some(sa) = stall_after {
+                        if seen >= sa {
+                            // from now on nothing is read any more; a little more fits into the transport
+                            stall_ctl.clamp_capacity(64);
+                            anytls_simnet::world::fault_fired("transport.peer_stall_unbounded");
+                            std::future::pending::<()>().await;
+                        }
+                    }
                     match r_out.read(&mut b).await {
                         Ok(0) | Err(_) => break,
-                        Ok(_) => {
+                        Ok(k) => {
+                            seen += k as u64;
                             if drain_delay > 0 {
                                 sleep(Duration::from_micros(drain_delay)).await;
                             }
@@ -369,7 +386,11 @@ impl Check for C09 {
             if !sut.is_closed() {
                 out.viol("not-closed", format!("not-closed:{}", cz), format!("{} session not visibly closed {} ms after it was told ({})", plan["side"], B_US / 1000, cz));
             }
-            if !c_out.shutdown_called() {
+            let stalled = plan["stall_after"].as_u64().is_some();
+            // behind a peer that stopped reading, a parked write legitimately keeps the transport (and its
+            // lock) busy for ever: shutdown, that write and close() itself are not judged then — releasing
+            // every waiter and refusing new work still is
+            if !stalled && !c_out.shutdown_called() {
                 out.viol("transport-not-shut", format!("transport-not-shut:{}", cz), format!("neither shutdown nor drop of the transport writer {} ms after {}", B_US / 1000, cz));
             }
             {
@@ -395,7 +416,7 @@ impl Check for C09 {
                     }
                 }
             }
-            if effective_cause == "owner_close" && close_ret.lock().unwrap().is_none() {
+            if !stalled && effective_cause == "owner_close" && close_ret.lock().unwrap().is_none() {
                 out.viol("close-hang", "close-hang", format!("close() has not returned {} ms after it was called", B_US / 1000));
             }
             // ---- later attempts: must fail, promptly ----
@@ -426,7 +447,7 @@ impl Check for C09 {
             // ---- by t0 + 2B ----
             {
                 let g = ops.lock().unwrap();
-                if let Some(o) = g.iter().find(|o| o.start < t0 + B_US && o.end.is_none()) {
+                if let Some(o) = g.iter().find(|o| !stalled && o.start < t0 + B_US && o.end.is_none()) {
                     out.viol("op-hang", format!("op-hang:{}:{}", o.api, cz), format!("a {} write started at t={}us (session told at {}us) has not returned by t0+{}ms", o.api, o.start, t0, 2 * B_US / 1000));
                 }
             }
